@@ -1,5 +1,5 @@
 """Per-property policy: which rules decide which clause, floors, scope, wording for the evidence."""
-from . import rules_conv, rules_table, rules_codec, rules_layout, rules_effect, rules_path, rules_reply
+from . import rules_conv, rules_table, rules_codec, rules_layout, rules_effect, rules_path, rules_reply, rules_cow
 
 import json, os
 
@@ -155,6 +155,34 @@ PROPS = {
         "rules": [
             {"run": rules_path.run_progress, "floor": 15, "use_anchor_files": True},
             {"run": rules_path.run_cursor, "floor": 6, "use_anchor_files": True},
+        ],
+    },
+    "C04": {
+        "explanation": "COWGUARD: typestate over the clang CFG (ghost facts fresh/noshared/noimm per buffer pointer, carried as trace partitions of the interval analysis): in every "
+                       "function taking an array/slice/encode_array/path handle, each store to the buffer's used length, each mem* into its payload and each call of a buffer-level "
+                       "mutator is reached only with a private buffer (detach()/allocation result on that path, a get_flags() test excluding BufferShared and BufferImmutable, a "
+                       "private-making handle-level callee that succeeded, or a file-local helper all of whose call sites hold such a guard; the restore-length idiom is accepted). "
+                       "STALE: a buffer pointer loaded from the handle is not used after a call that may replace the handle's buffer. NULLCONTRA: trace partitioning on the "
+                       "function's own null tests - no dereference on a path class where the pointer is known null. OBJSIZE: copy calls do not read past a source of known size; "
+                       "literal zero lengths with a real source are dead copies. STATUSPOLARITY, LAZYINIT, BOUNDSTALE: status/lazy-init/loop-bound idioms. ERRFX on the buffer and "
+                       "array primitives: no store into the object on a path that then refuses.",
+        "not_decided": "equality with a value-semantics vector after arbitrary histories (contents, zero fill, exact lengths); the C++ container templates beyond NULLCONTRA/OBJSIZE",
+        "assumptions": ["type_traits.size is non-zero for registered traits (DIVZERO is not armed on element-size divisions)"],
+        "technique": "CFG typestate with trace partitioning (copy-on-write discipline), staleness after may-reallocate calls, null-test partitioning, copy-size intervals",
+        "level_text": "Decides the aliasing discipline: every write through an array handle in the C layer happens on a private buffer on all paths (24 write sites in 13 functions), "
+                      "plus refusal and fault clauses of the array API. A write that reaches a possibly shared buffer is exactly 'the other handle changes'.",
+        "level_note": "handle-level scope: functions with a non-const array/slice/encode_array/path parameter in the anchor files and the path/push/message helpers; buffer-level API "
+                      "(functions taking a buffer directly) is the callee side of the contract",
+        "extra_scope_files": ["mptcore/config/path_addchar.c", "mptcore/config/path_add.c", "mptcore/config/path_del.c", "mptcore/config/path_set.c",
+                              "mptcore/array/array_push.c", "mptcore/array/array_message.c", "mptcore/message/message_append.c"],
+        "rules": [
+            {"run": rules_cow.run, "floor": 20, "use_anchor_files": True},
+            {"run": rules_path.run_nullcontra, "floor": 60, "use_anchor_files": True},
+            {"run": rules_path.run_objsize, "floor": 15, "use_anchor_files": True},
+            {"run": rules_path.run_statuspolarity, "floor": 5, "use_anchor_files": True},
+            {"run": rules_path.run_lazyinit, "floor": 1, "use_anchor_files": True},
+            {"run": rules_path.run_boundstale, "floor": 5, "use_anchor_files": True},
+            {"run": rules_effect.run_objects, "floor": 20, "ctx": {"records": ["mpt_buffer", "buffer", "mpt_array", "array"], "min_functions": 10}, "use_anchor_files": True},
         ],
     },
 }
